@@ -131,6 +131,13 @@ class Sched:
                     s.state = 'runnable'
                     s.wake_at = None
                     s.ready_fn = None
+                elif s.state == 'blocked' and s.wake_at is not None and s.wake_at <= W.now:
+                    # its deadline has been reached in virtual time (another thread was released at the same instant)
+                    s.state = 'runnable'
+                    s.wake_at = None
+                    s.ready_fn = None
+                    s.timed_out = True
+                    self.timeout_wakeups.append((n, s.waiting_on, W.now))
                 if s.state == 'runnable':
                     out.append(n)
         finally:
